@@ -126,6 +126,9 @@ type Host struct {
 	Auth      *AuthCfg
 	uploads   map[string]*upload
 	upSeq     int
+	inFlight  atomic.Int32
+	// MaxInFlight is the largest number of simultaneously running request handlers seen.
+	MaxInFlight atomic.Int32
 }
 
 // NewWorld creates an empty world.
@@ -293,6 +296,18 @@ func (h *Host) errResp(status int, code, msg string) *response {
 // ServeHTTP implements http.Handler.
 func (h *Host) ServeHTTP(w http.ResponseWriter, r *http.Request) {
 	h.W.reqCount.Add(1)
+	// in-flight window: from arrival until just before the first response byte is written, so
+	// that it always lies inside the period in which the client holds its throttle slot
+	n := h.inFlight.Add(1)
+	var once sync.Once
+	leave := func() { once.Do(func() { h.inFlight.Add(-1) }) }
+	defer leave()
+	for {
+		m := h.MaxInFlight.Load()
+		if n <= m || h.MaxInFlight.CompareAndSwap(m, n) {
+			break
+		}
+	}
 	body, _ := io.ReadAll(r.Body)
 	ev := &Event{Host: h.Name, Method: r.Method, Path: r.URL.Path, Query: r.URL.RawQuery, BodyLen: len(body),
 		Range: r.Header.Get("Range"), ContentRange: r.Header.Get("Content-Range"), Auth: r.Header.Get("Authorization"),
@@ -306,6 +321,9 @@ func (h *Host) ServeHTTP(w http.ResponseWriter, r *http.Request) {
 	ev.Arr = h.W.arr
 	h.W.mu.Unlock()
 
+	if h.Intercept != nil {
+		leave()
+	}
 	if h.Intercept != nil && h.Intercept(ev, w, r) {
 		h.W.mu.Lock()
 		h.W.seq++
@@ -336,6 +354,7 @@ func (h *Host) ServeHTTP(w http.ResponseWriter, r *http.Request) {
 	h.W.Events = append(h.W.Events, ev)
 	h.W.mu.Unlock()
 	resp.head = r.Method == "HEAD"
+	leave()
 	writeResp(w, resp)
 }
 
